@@ -37,6 +37,7 @@ def main():
         tier = a[a.index("--tier") + 1]
     if "--checks" in a:
         checks = a[a.index("--checks") + 1].split(",")
+    race = ["-race"] if "--race" in a else []   # the demonstration needs the race detector
     sd = os.path.join(wt, "_seed", var)
     patch = os.path.join(sd, "patch.diff")
     meta = {"property": prop, "variant": var, "ran": [], "confirmed": {}}
@@ -65,7 +66,7 @@ def main():
             mod, rel = module_of(dest)
             pkg = "./" + os.path.dirname(rel) if os.path.dirname(rel) else "."
             tests = re.findall(r"^func (Test\w+)\(", open(os.path.join(sd, f)).read(), re.M)
-            rc, out = sh(["go", "test", "-count=1", "-run", "^(" + "|".join(tests) + ")$", pkg], cwd=os.path.join(wt, mod), timeout=900)
+            rc, out = sh(["go", "test"] + race + ["-count=1", "-run", "^(" + "|".join(tests) + ")$", pkg], cwd=os.path.join(wt, mod), timeout=900)
             res.append((rc, out[-1500:]))
         for f, dest in demos:
             os.remove(os.path.join(wt, dest))
